@@ -27,7 +27,7 @@ ASSUMPTIONS = [
     "T10 text is demanded (case-insensitive substring) only for the 41 well-known codes in t10/sense.py and the 15 named sense keys",
     "for response codes outside 70h-73h only 'does not raise' is demanded",
 ]
-REQUIRED_PROBES = ["decoded_ok", "text_ok", "rc_deferred", "rc_unknown", "short_buffer", "long_sense_iscsi"]
+REQUIRED_PROBES = ["reinspected", "print_data_option", "decoded_ok", "text_ok", "rc_deferred", "rc_unknown", "short_buffer", "long_sense_iscsi"]
 
 RCS = [0x70, 0x71, 0x72, 0x73]
 
@@ -175,6 +175,9 @@ def judge(exc, handed, where, V):
                       expected="text containing %r" % S.SENSE_KEYS[exp["key"]], actual=text[:160]))
 
 
+KEPT = []      # error objects kept by the application (a log of failures), re-inspected at the end of the run
+
+
 def one(dev, sense, raw, where, V):
     from pyscsi.pyscsi.scsi_cdb_testunitready import TestUnitReady
     cmd = TestUnitReady(dev.opcodes.TEST_UNIT_READY)
@@ -204,6 +207,17 @@ def one(dev, sense, raw, where, V):
                       expected="a CheckCondition for sense %s" % handed.hex(), actual=repr(val)[:120]))
         return
     judge(val, handed, where, V)
+    if len(KEPT) < 24:
+        KEPT.append((val, handed, where))
+    # the constructor's print_data option: converting to text also prints the decoded fields
+    if (handed[0] & 0x7F) in RCS and (len(handed) % 3) == 0 and isinstance(cc_cls, type):
+        import contextlib
+        WORLD.probe("print_data_option")
+        with contextlib.redirect_stdout(io.StringIO()):
+            k2, v2 = worlds.outcome_of(lambda: str(cc_cls(handed, True)))
+        if k2 == "exc":
+            V.append(dict(oracle="C08.str-raises", where=where, detail="print_data/%s" % type(v2).__name__,
+                          expected="str() of CheckCondition(sense, print_data=True) returns text for sense %s" % handed.hex(), actual=repr(v2)[:120]))
 
 
 def execute(prog):
@@ -213,6 +227,7 @@ def execute(prog):
     devs = {t: worlds.open_device(t, worlds.make_lu(cfg, ident=n + 1)) for n, t in enumerate(("sgio", "iscsi"))}
     V = []
     n = 0
+    del KEPT[:]
     if prog.get("sweep"):
         sw = prog["sweep"]
         dev = devs[sw["transport"]]
@@ -229,6 +244,16 @@ def execute(prog):
         WORLD.ev("op", i=i, transport=op["transport"])
         one(devs[op["transport"]], bytes.fromhex(op["sense"]), op.get("raw", False), op["transport"], V)
         n += 1
+    # errors collected earlier must still say what they said: later errors must not change them
+    V2 = []
+    for exc, handed, where in KEPT:
+        judge(exc, handed, where, V2)
+    for v in V2:
+        v["oracle"] = v["oracle"] + "-later"
+        v["expected"] = "(re-inspected after later errors were built) " + str(v["expected"])
+    if KEPT:
+        WORLD.probe("reinspected", len(KEPT))
+    V += V2
     # one violation per signature is enough per run
     seen, out = set(), []
     for v in V:
